@@ -99,6 +99,12 @@ def check_roundtrip(case, rec):
         rec.skip('abbreviation-does-not-expand')
         return
     prefix = case.get('prefix', '')
+    if prefix and prefix in (abbr + right):
+        # with the `prefix` option the abbreviation starts after the NEAREST occurrence of the prefix before the caret; an abbreviation that spells
+        # the prefix itself (`.$@->.a` spells `->`) is therefore cut there by design — outside the round-trip domain (a thorough run reported
+        # exactly this as roundtrip:cut-short: a false alarm of the generator, corrected here)
+        rec.skip('abbreviation-contains-the-prefix')
+        return
     line = left + prefix + abbr + right
     pos = len(left) + len(prefix) + len(abbr) - tail
     rec.evals()
